@@ -24,8 +24,10 @@ OffersAll == {<<"int", "lit", I("5")>>, <<"int", "var", Var("xi")>>, <<"int", "c
               <<"string", "lit", StrL("t")>>, <<"string", "var", Var("xs")>>, <<"string", "itoa", Itoa(Var("xi"))>>, <<"string", "nil", Nil>>, <<"string", "idx", IndexE(Var("xs"), I("0"))>>,
               <<"sliceint", "lit", SliceLit("int", <<I("1")>>)>>, <<"sliceint", "var", Var("si")>>, <<"sliceint", "call", CallE("fsl", <<Var("si")>>)>>,
               <<"slicebool", "var", Var("sb")>>, <<"slicestring", "var", Var("ss")>>, <<"slicestring", "lit", SliceLit("string", <<>>)>>,
-              <<"void", "call", CallE("v0", <<>>)>>, <<"multi", "call", CallE("m2", <<>>)>>}
-Offers == IF Quick THEN {o \in OffersAll : o[2] \in {"var", "call"} /\ ~(o[1] = "int" /\ o[2] = "call") /\ ~(o[1] = "sliceint" /\ o[2] = "call")} \cup {<<"string", "nil", Nil>>}
+              <<"void", "call", CallE("v0", <<>>)>>, <<"multi", "call", CallE("m2", <<>>)>>,
+              \* the same behind parentheses: a group has the type (and the value count) of what it holds
+              <<"void", "grp", Grp(CallE("v0", <<>>))>>, <<"multi", "grp", Grp(CallE("m2", <<>>))>>, <<"int", "grpcall", Grp(CallE("fi", <<I("1")>>))>>, <<"string", "grp", Grp(Var("xs"))>>}
+Offers == IF Quick THEN {o \in OffersAll : o[2] \in {"var", "call", "grp"} /\ ~(o[1] = "int" /\ o[2] = "call") /\ ~(o[1] = "sliceint" /\ o[2] = "call")} \cup {<<"string", "nil", Nil>>}
           ELSE OffersAll
 
 PosNames == {"not", "andL", "andR", "orL", "orR", "subL", "subR", "mulL", "mulR", "divL", "divR", "modL", "modR", "addIntL", "addIntR", "addStrL", "addStrR",
@@ -139,6 +141,20 @@ ArityCases ==
    CaseX("C06/builtin/copy1", Prelude \o <<Def1("r", [k |-> "rawtext", text |-> "copy(si)"])>>, "reject"), CaseX("C06/builtin/copydstexpr", Prelude \o <<Def1("r", [k |-> "rawtext", text |-> "copy([]int{1}, si)"])>>, "reject"),
    CaseX("C06/builtin/copydstscalar", Prelude \o <<Def1("r", CopyE("xi", Var("si")))>>, "reject"), CaseX("C06/builtin/copydststr", Prelude \o <<Def1("r", CopyE("ss", Var("si")))>>, "reject"),
    CaseX("C06/builtin/itoa0", Prelude \o <<Def1("r", [k |-> "rawtext", text |-> "itoa()"])>>, "reject"), CaseX("C06/builtin/input2", Prelude \o <<Def1("r", [k |-> "rawtext", text |-> "input(xs, xs)"])>>, "reject")}
-All == PosCases \cup RetCases \cup ArityCases
+\* lists of values: every form that takes a comma-separated list x length 2..3 x the offered expression in every position
+VForms == {"short", "varuntyped", "vartyped", "assign", "return", "printargs", "callargs"}
+VNames(n) == [i \in 1..n |-> "w" \o ToString(i)]
+VVals(n, k, h) == [i \in 1..n |-> IF i = k THEN h ELSE I(ToString(i))]
+VList(f, n, k, h) ==
+  CASE f = "short" -> <<Def(VNames(n), VVals(n, k, h))>>
+    [] f = "varuntyped" -> <<VarDef(VNames(n), "", VVals(n, k, h))>>
+    [] f = "vartyped" -> <<VarDef(VNames(n), "int", VVals(n, k, h))>>
+    [] f = "assign" -> <<VarDef(VNames(n), "int", <<>>), Asg(VNames(n), VVals(n, k, h))>>
+    [] f = "return" -> <<Func("g", <<>>, [i \in 1..n |-> "int"], <<RetS(VVals(n, k, h))>>)>>
+    [] f = "printargs" -> <<PrintS(VVals(n, k, h))>>
+    [] f = "callargs" -> <<Func("g", [i \in 1..n |-> Param("a" \o ToString(i), "int")], <<>>, <<Print1(Var("a1"))>>), ExprS(CallE("g", VVals(n, k, h)))>>
+VListCases == {CaseOf("C06/vlist/" \o f \o "/" \o ToString(nk[1]) \o "." \o ToString(nk[2]) \o "/" \o o[1] \o "." \o o[2], Prelude \o VList(f, nk[1], nk[2], o[3]))
+               : f \in VForms, nk \in {<<2, 1>>, <<2, 2>>, <<3, 1>>, <<3, 2>>, <<3, 3>>}, o \in Offers}
+All == PosCases \cup RetCases \cup ArityCases \cup VListCases
 ASSUME ndJsonSerialize("fam.ndjson", SetToSeq(All))
 =============================================================================
